@@ -242,6 +242,21 @@ Qed.
 (* Go enum -> proto enum -> Go enum is the identity on every listed value *)
 Definition fwd_ok (to_p from_p : list (N * N)) : bool :=
   forallb (fun vp => match lookup from_p (snd vp) with Some v => v =? fst vp | None => false end) to_p.
+(* ... except for the listed Go values *)
+Definition fwd_ok_exc (exc : list N) (to_p from_p : list (N * N)) : bool :=
+  forallb (fun vp => existsb (N.eqb (fst vp)) exc ||
+                     match lookup from_p (snd vp) with Some v => v =? fst vp | None => false end) to_p.
+Fixpoint table_eqb (a b : list (N * N)) : bool :=
+  match a, b with
+  | [], [] => true
+  | (x1, y1) :: a', (x2, y2) :: b' => (x1 =? x2) && (y1 =? y2) && table_eqb a' b'
+  | _, _ => false
+  end.
+(* The one Go-side exception in the tree: ecies.UnspecifiedPointFormat (0), legal
+   only for X25519, is written as COMPRESSED; the parser restores it from the
+   curve type, not from this map (hybrid/ecies/protoserialization.go). *)
+Definition fwd_exceptions (to_p : list (N * N)) : list N :=
+  if table_eqb to_p hybrid_ecies_protoEcPointFormatFromPointFormat then [0] else [].
 (* proto enum -> Go enum -> proto enum is the identity, except that the
    OutputPrefixType maps may send LEGACY (2) to the variant that is written
    back as CRUNCHY (4) *)
@@ -260,7 +275,8 @@ Definition keys_distinct (t : list (N * N)) : bool := nodupb (map fst t).
 
 Definition pair_ok (x : bool * list (N * N) * list (N * N)) : bool :=
   let '(isp, to_p, from_p) := x in
-  keys_distinct to_p && keys_distinct from_p && fwd_ok to_p from_p && bwd_ok isp to_p from_p && stable_ok to_p from_p.
+  keys_distinct to_p && keys_distinct from_p && fwd_ok_exc (fwd_exceptions to_p) to_p from_p
+  && bwd_ok isp to_p from_p && stable_ok to_p from_p.
 
 Lemma enum_pairs_ok : forallb pair_ok enum_map_pairs = true.
 Proof. vm_compute. reflexivity. Qed.
@@ -271,6 +287,15 @@ Proof.
   intros H v p Hl. apply lookup_in in Hl. unfold fwd_ok in H. rewrite forallb_forall in H.
   specialize (H _ Hl). cbn [fst snd] in H. destruct (lookup from_p p); [|discriminate].
   apply N.eqb_eq in H. congruence.
+Qed.
+
+Lemma fwd_ok_exc_spec exc to_p from_p : fwd_ok_exc exc to_p from_p = true ->
+  forall v p, lookup to_p v = Some p -> In v exc \/ lookup from_p p = Some v.
+Proof.
+  intros H v p Hl. apply lookup_in in Hl. unfold fwd_ok_exc in H. rewrite forallb_forall in H.
+  specialize (H _ Hl). cbn [fst snd] in H. apply orb_true_iff in H. destruct H as [H|H].
+  - left. apply existsb_exists in H. destruct H as (x & Hx & E). apply N.eqb_eq in E. subst x. exact Hx.
+  - right. destruct (lookup from_p p); [|discriminate]. apply N.eqb_eq in H. congruence.
 Qed.
 
 Lemma bwd_ok_spec isp to_p from_p : bwd_ok isp to_p from_p = true ->
@@ -297,14 +322,14 @@ Qed.
 (* every enum map pair of every protoserialization.go round-trips *)
 Theorem enum_maps_roundtrip isp to_p from_p :
   In (isp, to_p, from_p) enum_map_pairs ->
-  (forall v p, lookup to_p v = Some p -> lookup from_p p = Some v) /\
+  (forall v p, lookup to_p v = Some p -> In v (fwd_exceptions to_p) \/ lookup from_p p = Some v) /\
   (forall p v, lookup from_p p = Some v ->
      lookup to_p v = Some p \/ (isp = true /\ p = 2 /\ lookup to_p v = Some 4)) /\
   (forall p v, lookup from_p p = Some v -> exists p', lookup to_p v = Some p' /\ lookup from_p p' = Some v).
 Proof.
   intros Hin. pose proof enum_pairs_ok as H. rewrite forallb_forall in H. specialize (H _ Hin).
   unfold pair_ok in H. rewrite !andb_true_iff in H. destruct H as ((((_ & _) & F) & B) & S).
-  repeat split; [apply fwd_ok_spec; exact F | eapply bwd_ok_spec; exact B | apply stable_ok_spec; exact S].
+  repeat split; [apply fwd_ok_exc_spec; exact F | eapply bwd_ok_spec; exact B | apply stable_ok_spec; exact S].
 Qed.
 
 (* the LEGACY -> CRUNCHY collapse really occurs (it is the only non-injective case) *)
@@ -338,3 +363,458 @@ Definition pm_ok (e : bytes * (N * (N * (list (N * N) * (list (N * N) * list (N 
   else (kind =? 0) && fwd_ok to_p from_p && stable_ok to_p from_p.
 Lemma prefix_maps_ok : forallb pm_ok prefix_maps = true.
 Proof. vm_compute. reflexivity. Qed.
+
+(* ------------------------------------------------------------------ *)
+(* generic key <-> key serialisation                                   *)
+(* ------------------------------------------------------------------ *)
+(* what a key object guarantees about its variant (its constructors enforce it) *)
+Definition variant_ok (T : ktype) (k : gkey) : Prop :=
+  match kt_prefix T with
+  | PTables to_p from_p =>
+      forall p, lookup to_p (gk_variant k) = Some p -> lookup from_p p = Some (gk_variant k)
+  | PJwt custom to_p from_p from_kid path =>
+      (* a custom kid is present exactly for the CustomKID strategy *)
+      (has_path (kt_schema T) (gk_fields k) path = true <-> gk_variant k = custom) /\
+      forall p, lookup to_p (gk_variant k) = Some p ->
+        lookup (if gk_variant k =? custom then from_kid else from_p) p = Some (gk_variant k)
+  | PIgnored => gk_variant k = 0 /\ gk_id k = 0
+  end.
+
+Lemma new_key_serialization_some url value mat prefix id s :
+  new_key_serialization url value mat prefix id = Some s ->
+  s = mkKser url value mat prefix id /\ (prefix = prefix_raw -> id = 0).
+Proof.
+  unfold new_key_serialization.
+  destruct ((prefix =? prefix_raw) && negb (id =? 0)) eqn:E; [discriminate|].
+  intros H. inversion H; subst. split; [reflexivity|].
+  intros Hp. subst prefix. rewrite N.eqb_refl in E. cbn [andb] in E.
+  apply negb_false_iff, N.eqb_eq in E. exact E.
+Qed.
+
+Theorem parse_serialize_key T k s :
+  wf_schema (kt_schema T) = true ->
+  wf_msg (kt_schema T) (gk_fields k) = true ->
+  N.of_nat (length (encode (kt_schema T) (gk_fields k))) < two64 ->
+  normalise (kt_norm T) (kt_schema T) (gk_fields k) = Some (gk_fields k) ->
+  variant_ok T k ->
+  serialize_key T k = Some s ->
+  parse_key T s = Some k.
+Proof.
+  intros Hs Hw Hl Hn Hv Hser. unfold serialize_key in Hser. unfold parse_key. unfold variant_ok in Hv.
+  destruct k as [url mat v id fields]. cbn [gk_url gk_mat gk_variant gk_id gk_fields] in *.
+  destruct (kt_prefix T) as [to_p from_p | custom to_p from_p from_kid path |] eqn:EP.
+  - destruct (lookup to_p v) as [p|] eqn:El; [|discriminate].
+    apply new_key_serialization_some in Hser. destruct Hser as [-> _].
+    cbn [ks_value ks_prefix ks_url ks_mat ks_id].
+    rewrite decode_encode by assumption. rewrite Hn. rewrite (Hv p eq_refl). reflexivity.
+  - destruct (lookup to_p v) as [p|] eqn:El; [|discriminate].
+    apply new_key_serialization_some in Hser. destruct Hser as [-> _].
+    cbn [ks_value ks_prefix ks_url ks_mat ks_id].
+    rewrite decode_encode by assumption. rewrite Hn.
+    destruct Hv as [Hk Hv]. specialize (Hv p eq_refl).
+    destruct (v =? custom) eqn:Ec.
+    + apply N.eqb_eq in Ec. rewrite (proj2 Hk Ec). rewrite Hv.
+      subst v. rewrite N.eqb_refl. reflexivity.
+    + assert (Hp : has_path (kt_schema T) fields path = false).
+      { destruct (has_path (kt_schema T) fields path) eqn:E; [|reflexivity].
+        apply N.eqb_neq in Ec. exfalso. apply Ec. apply Hk. reflexivity. }
+      rewrite Hp, Hv. reflexivity.
+  - destruct Hv as [-> ->].
+    apply new_key_serialization_some in Hser. destruct Hser as [-> _].
+    cbn [ks_value ks_prefix ks_url ks_mat ks_id].
+    rewrite decode_encode by assumption. rewrite Hn. reflexivity.
+Qed.
+
+(* hence the second serialization is byte-identical to the first *)
+Corollary reserialize_identical T k s :
+  wf_schema (kt_schema T) = true ->
+  wf_msg (kt_schema T) (gk_fields k) = true ->
+  N.of_nat (length (encode (kt_schema T) (gk_fields k))) < two64 ->
+  normalise (kt_norm T) (kt_schema T) (gk_fields k) = Some (gk_fields k) ->
+  variant_ok T k ->
+  serialize_key T k = Some s ->
+  exists k', parse_key T s = Some k' /\ serialize_key T k' = Some s.
+Proof.
+  intros. exists k. split; [eapply parse_serialize_key; eassumption | assumption].
+Qed.
+
+(* for the types of the registry (ktype_of), the table condition holds by
+   computation over SerialTables.prefix_maps *)
+Theorem registered_variant_ok url sch T k :
+  ktype_of url sch = Some T ->
+  match kt_prefix T with
+  | PTables _ _ => True
+  | PJwt custom _ _ _ path => has_path sch (gk_fields k) path = true <-> gk_variant k = custom
+  | PIgnored => gk_variant k = 0 /\ gk_id k = 0
+  end ->
+  variant_ok T k.
+Proof.
+  unfold ktype_of, prefix_kind_of.
+  destruct (lookup_bytes prefix_maps url) as [[kind [custom [to_p [from_p from_kid]]]]|] eqn:E; [|discriminate].
+  destruct (lookup_bytes_in _ _ _ E) as [u Hin].
+  pose proof prefix_maps_ok as H. rewrite forallb_forall in H. specialize (H _ Hin). unfold pm_ok in H.
+  destruct (kind =? 1) eqn:E1.
+  - intros HT. inversion HT; subst T. unfold variant_ok. cbn [kt_prefix]. auto.
+  - destruct (kind =? 2) eqn:E2.
+    + destruct (lookup_bytes jwt_kid_paths url) as [path|]; [|discriminate].
+      intros HT. inversion HT; subst T. unfold variant_ok. cbn [kt_prefix kt_schema].
+      intros Hk. split; [exact Hk|].
+      intros p Hl. rewrite !andb_true_iff in H. destruct H as [[H _] _].
+      rewrite forallb_forall in H. specialize (H _ (lookup_in _ _ _ Hl)). cbn [fst snd] in H.
+      destruct (lookup (if gk_variant k =? custom then from_kid else from_p) p); [|discriminate].
+      apply N.eqb_eq in H. congruence.
+    + intros HT. inversion HT; subst T. unfold variant_ok. cbn [kt_prefix]. intros _.
+      rewrite !andb_true_iff in H. destruct H as [[_ H] _].
+      intros p Hl. eapply fwd_ok_spec; eassumption.
+Qed.
+
+(* parameters <-> key template *)
+Theorem parse_serialize_params T p t :
+  wf_schema (kt_schema T) = true ->
+  wf_msg (kt_schema T) (gp_fields p) = true ->
+  N.of_nat (length (encode (kt_schema T) (gp_fields p))) < two64 ->
+  match kt_prefix T with
+  | PTables to_p from_p => forall pr, lookup to_p (gp_variant p) = Some pr -> lookup from_p pr = Some (gp_variant p)
+  | PJwt custom to_p from_p _ _ =>
+      (* a key template cannot express a custom kid: CustomKID parameters are excluded *)
+      forall pr, lookup to_p (gp_variant p) = Some pr -> lookup from_p pr = Some (gp_variant p)
+  | PIgnored => gp_variant p = 0
+  end ->
+  serialize_params T p = Some t ->
+  parse_params T t = Some p.
+Proof.
+  intros Hs Hw Hl Hv Hser. unfold serialize_params in Hser. unfold parse_params.
+  destruct p as [url v fields]. cbn [gp_url gp_variant gp_fields] in *.
+  destruct (kt_prefix T) as [to_p from_p | custom to_p from_p from_kid path |].
+  - destruct (lookup to_p v) as [pr|] eqn:El; [|discriminate]. inversion Hser; subst t.
+    cbn [tp_value tp_prefix tp_url]. rewrite decode_encode by assumption. rewrite (Hv pr eq_refl). reflexivity.
+  - destruct (lookup to_p v) as [pr|] eqn:El; [|discriminate]. inversion Hser; subst t.
+    cbn [tp_value tp_prefix tp_url]. rewrite decode_encode by assumption. rewrite (Hv pr eq_refl). reflexivity.
+  - inversion Hser; subst t. cbn [tp_value tp_prefix tp_url]. rewrite decode_encode by assumption.
+    unfold prefix_raw. rewrite N.eqb_refl. subst v. reflexivity.
+Qed.
+
+(* The JWT tables make CustomKID parameters unserialisable without loss: they are
+   written as RAW, and RAW parses (without a custom kid) to another strategy. *)
+Theorem jwt_custom_kid_parameters_lossy :
+  forall custom to_p from_p from_kid, In (custom, to_p, from_p, from_kid) jwt_custom_kid_maps ->
+    exists pr v', lookup to_p custom = Some pr /\ lookup from_p pr = Some v' /\ v' <> custom.
+Proof.
+  intros custom to_p from_p from_kid Hin.
+  assert (H : forallb (fun x => let '(c, t, f, _) := x in
+              match lookup t c with
+              | Some pr => match lookup f pr with Some v' => negb (v' =? c) | None => false end
+              | None => false end) jwt_custom_kid_maps = true) by (vm_compute; reflexivity).
+  rewrite forallb_forall in H. specialize (H _ Hin). cbn beta iota in H.
+  destruct (lookup to_p custom) as [pr|] eqn:E1; [|discriminate].
+  destruct (lookup from_p pr) as [v'|] eqn:E2; [|discriminate].
+  exists pr, v'. apply negb_true_iff, N.eqb_neq in H. split; [reflexivity | split; [exact E2 | exact H]].
+Qed.
+
+(* ------------------------------------------------------------------ *)
+(* keysets                                                             *)
+(* ------------------------------------------------------------------ *)
+Arguments e_key {K} e. Arguments e_primary {K} e. Arguments e_id {K} e. Arguments e_status {K} e.
+Arguments mkEntry {K}.
+
+Lemma all_some_map {A B} (g : A -> option B) (h : A -> B) l :
+  (forall x, In x l -> g x = Some (h x)) -> all_some (map g l) = Some (map h l).
+Proof.
+  induction l as [|x l IH]; intros H; cbn [map all_some]; [reflexivity|].
+  rewrite (H x) by (left; reflexivity). rewrite IH; [reflexivity|].
+  intros y Hy. apply H. right. exact Hy.
+Qed.
+
+Lemma msg_keydata_inv d : msg_keydata (keydata_msg d) = Some d.
+Proof. destruct d. reflexivity. Qed.
+Lemma msg_pkey_inv k : msg_pkey (pkey_msg k) = Some k.
+Proof.
+  destruct k as [[d|] st id p]; unfold pkey_msg; cbn [pk_data pk_status pk_id pk_prefix option_map msg_pkey].
+  - destruct d. reflexivity.
+  - reflexivity.
+Qed.
+Lemma msg_keyset_inv ks : msg_keyset (keyset_msg ks) = Some ks.
+Proof.
+  destruct ks as [pr l]. unfold keyset_msg, msg_keyset. cbn [pks_primary pks_keys].
+  rewrite map_map. rewrite (all_some_map _ (fun k => k)).
+  - rewrite map_id. reflexivity.
+  - intros k _. apply msg_pkey_inv.
+Qed.
+
+(* the proto keyset is a well-formed message when its numbers are in range *)
+Definition wf_pkey (k : pkey) : bool :=
+  match pk_data k with
+  | Some d => utf8_valid (kd_url d) && scalar_ok TEnum (kd_mat d)
+  | None => true
+  end && scalar_ok TEnum (pk_status k) && (pk_id k <? two32) && scalar_ok TEnum (pk_prefix k).
+Definition wf_pkeyset (ks : pkeyset) : bool := (pks_primary ks <? two32) && forallb wf_pkey (pks_keys ks).
+
+Lemma wf_keyset_msg ks : wf_pkeyset ks = true -> wf_msg keyset_schema (keyset_msg ks) = true.
+Proof.
+  unfold wf_pkeyset. intros H. apply andb_true_iff in H. destruct H as [Hp Hk].
+  unfold keyset_msg, keyset_schema. cbn [wf_msg wf_val].
+  change (scalar_ok TU32 (pks_primary ks)) with (pks_primary ks <? two32). rewrite Hp. cbn [andb].
+  rewrite andb_true_r. rewrite forallb_forall in *. intros m Hm. apply in_map_iff in Hm.
+  destruct Hm as (k & <- & Hin). specialize (Hk k Hin). unfold wf_pkey in Hk.
+  rewrite !andb_true_iff in Hk. destruct Hk as (((Hd & Hs) & Hi) & Hx).
+  unfold pkey_msg, keyset_key_schema. cbn [wf_msg wf_val]. rewrite Hs, Hx.
+  change (scalar_ok TU32 (pk_id k)) with (pk_id k <? two32). rewrite Hi. cbn [andb]. rewrite !andb_true_r.
+  destruct (pk_data k) as [d|]; cbn [option_map]; [|reflexivity].
+  apply andb_true_iff in Hd. destruct Hd as [Hu Hm]. unfold keydata_msg, keydata_schema.
+  cbn [wf_msg wf_val]. rewrite Hu, Hm. reflexivity.
+Qed.
+
+Lemma keyset_schema_wf : wf_schema keyset_schema = true.
+Proof. reflexivity. Qed.
+Lemma encrypted_keyset_schema_wf : wf_schema encrypted_keyset_schema = true.
+Proof. reflexivity. Qed.
+
+Theorem read_write_keyset ks :
+  wf_pkeyset ks = true -> N.of_nat (length (write_keyset ks)) < two64 ->
+  read_keyset (write_keyset ks) = Some ks.
+Proof.
+  intros Hw Hl. unfold read_keyset, write_keyset in *.
+  rewrite decode_encode; [apply msg_keyset_inv | apply keyset_schema_wf | apply wf_keyset_msg; exact Hw | exact Hl].
+Qed.
+
+Lemma nodupb_NoDup l : nodupb l = true <-> NoDup l.
+Proof.
+  induction l as [|x l IH]; cbn [nodupb].
+  - split; intros _; [constructor | reflexivity].
+  - split; intros H.
+    + apply andb_true_iff in H. destruct H as [H1 H2]. constructor; [|apply IH; exact H2].
+      intros Hin. apply negb_true_iff in H1.
+      assert (existsb (N.eqb x) l = true) by (apply existsb_exists; exists x; split; [exact Hin | apply N.eqb_refl]).
+      congruence.
+    + inversion H as [|? ? Hn Hd]; subst. apply andb_true_iff. split; [|apply IH; exact Hd].
+      apply negb_true_iff. destruct (existsb (N.eqb x) l) eqn:E; [|reflexivity].
+      apply existsb_exists in E. destruct E as (y & Hy & Ey). apply N.eqb_eq in Ey. subst y. contradiction.
+Qed.
+
+Section KeysetProofs.
+  Variable K : Type.
+  Variable ser_k : K -> option kser.
+  Variable par_k : kser -> option K.
+
+  (* a key of the handle serialises, parses back to itself, and its id
+     requirement is the entry's id (none for RAW) *)
+  Definition key_ok (e : entry K) : Prop :=
+    exists s, ser_k (e_key e) = Some s /\ par_k s = Some (e_key e) /\
+      known_prefix (ks_prefix s) = true /\
+      ks_id s = (if ks_prefix s =? prefix_raw then 0 else e_id e) /\
+      utf8_valid (ks_url s) = true /\ scalar_ok TEnum (ks_mat s) = true.
+
+  (* what keyset.Manager guarantees of a handle (C11) *)
+  Record wf_handle (es : list (entry K)) : Prop := {
+    wh_ids : NoDup (map e_id es);
+    wh_idrange : forall e, In e es -> e_id e < two32;
+    wh_primary : exists l1 p l2, es = l1 ++ p :: l2 /\ e_primary p = true /\ e_status p = Enabled /\
+                   Forall (fun e => e_primary e = false) (l1 ++ l2);
+    wh_status : forall e, In e es -> e_status e <> Unknown;
+    wh_keys : forall e, In e es -> key_ok e
+  }.
+
+  Definition pk_of (e : entry K) : pkey :=
+    match entry_to_proto_key K ser_k e with Some k => k | None => mkPkey None 0 0 0 end.
+
+  Lemma entry_to_proto_key_ok e : e_status e <> Unknown -> key_ok e ->
+    exists s st, ser_k (e_key e) = Some s /\ status_to_proto (e_status e) = Some st /\
+      status_from_proto st = Some (e_status e) /\ known_status st = true /\
+      entry_to_proto_key K ser_k e =
+        Some (mkPkey (Some (mkKeyData (ks_url s) (ks_value s) (ks_mat s))) st (e_id e) (ks_prefix s)).
+  Proof.
+    intros Hst (s & Hs & _). exists s.
+    unfold entry_to_proto_key. rewrite Hs.
+    destruct (e_status e); try contradiction; cbn [status_to_proto];
+      [exists 1 | exists 2 | exists 3]; repeat split; reflexivity.
+  Qed.
+
+  Lemma primary_of_none l acc : Forall (fun e : entry K => e_primary e = false) l -> primary_of K l acc = acc.
+  Proof.
+    induction 1 as [|e l He _ IH] in acc |- *; cbn [primary_of]; [reflexivity|].
+    rewrite He. apply IH.
+  Qed.
+
+  Lemma primary_of_unique l1 p l2 acc :
+    e_primary p = true -> Forall (fun e : entry K => e_primary e = false) (l1 ++ l2) ->
+    primary_of K (l1 ++ p :: l2) acc = e_id p.
+  Proof.
+    intros Hp Hf. apply Forall_app in Hf. destruct Hf as [H1 H2].
+    revert acc. induction H1 as [|e l He _ IH]; intros acc; cbn [app primary_of].
+    - rewrite Hp. apply primary_of_none. exact H2.
+    - rewrite He. apply IH.
+  Qed.
+
+  Theorem keyset_entries_roundtrip es :
+    wf_handle es ->
+    exists ks, entries_to_proto_keyset K ser_k es = Some ks /\
+               keyset_to_entries K par_k ks = Some es /\
+               wf_pkeyset ks = true /\ pks_keys ks <> [].
+  Proof.
+    intros [Hids Hrange (l1 & p & l2 & Hes & Hpp & Hps & Hnp) Hst Hkeys].
+    assert (Hne : es <> []) by (rewrite Hes; destruct l1; discriminate).
+    assert (Hpin : In p es) by (rewrite Hes; apply in_or_app; right; left; reflexivity).
+    (* every entry converts *)
+    assert (Hconv : forall e, In e es -> entry_to_proto_key K ser_k e = Some (pk_of e)).
+    { intros e He. destruct (entry_to_proto_key_ok e (Hst e He) (Hkeys e He)) as (s & st & _ & _ & _ & _ & E).
+      unfold pk_of. rewrite E. reflexivity. }
+    exists (mkPkeyset (e_id p) (map pk_of es)).
+    assert (Hprim : primary_of K es 0 = e_id p) by (rewrite Hes; apply primary_of_unique; assumption).
+    split; [|split; [|split]].
+    - unfold entries_to_proto_keyset. destruct es as [|e0 es']; [contradiction|].
+      rewrite (all_some_map _ pk_of) by exact Hconv. rewrite Hprim. reflexivity.
+    - (* reading back *)
+      assert (Hother : forall e, In e es -> e_primary e = (e_id e =? e_id p)).
+      { intros e He. rewrite Hes in He. apply in_app_or in He.
+        assert (Hd : NoDup (map e_id l1 ++ e_id p :: map e_id l2)) by (rewrite Hes, map_app in Hids; exact Hids).
+        apply Forall_app in Hnp. destruct Hnp as [Hn1 Hn2]. rewrite Forall_forall in Hn1, Hn2.
+        destruct He as [He|[He|He]].
+        - rewrite (Hn1 e He). symmetry. apply N.eqb_neq. intros E.
+          apply NoDup_remove_2 in Hd. apply Hd. apply in_or_app. left. rewrite <- E. apply in_map. exact He.
+        - subst e. rewrite Hpp, N.eqb_refl. reflexivity.
+        - rewrite (Hn2 e He). symmetry. apply N.eqb_neq. intros E.
+          apply NoDup_remove_2 in Hd. apply Hd. apply in_or_app. right. rewrite <- E. apply in_map. exact He. }
+      unfold keyset_to_entries. cbn [pks_primary pks_keys].
+      assert (Hval : validate (mkPkeyset (e_id p) (map pk_of es)) = true).
+      { unfold validate. cbn [pks_primary pks_keys]. rewrite !andb_true_iff. repeat split.
+        - destruct es; [contradiction | reflexivity].
+        - apply forallb_forall. intros k Hk. apply in_map_iff in Hk. destruct Hk as (e & <- & He).
+          destruct (entry_to_proto_key_ok e (Hst e He) (Hkeys e He)) as (s & st & Hs & _ & _ & Hks & E).
+          unfold pk_of. rewrite E. unfold validate_key. cbn [pk_data pk_prefix pk_status].
+          destruct (Hkeys e He) as (s' & Hs' & _ & Hkp & _). rewrite Hs in Hs'. inversion Hs'; subst s'.
+          rewrite Hkp, Hks. reflexivity.
+        - apply nodupb_NoDup. rewrite map_map.
+          replace (map (fun x => pk_id (pk_of x)) es) with (map e_id es); [exact Hids|].
+          apply map_ext_in. intros e He.
+          destruct (entry_to_proto_key_ok e (Hst e He) (Hkeys e He)) as (s & st & _ & _ & _ & _ & E).
+          unfold pk_of. rewrite E. reflexivity.
+        - apply forallb_forall. intros k Hk. apply in_map_iff in Hk. destruct Hk as (e & <- & He).
+          destruct (entry_to_proto_key_ok e (Hst e He) (Hkeys e He)) as (s & st & _ & Hsp & _ & _ & E).
+          unfold pk_of. rewrite E. cbn [pk_status pk_id].
+          destruct (e_id e =? e_id p) eqn:Eid; [|apply orb_true_r].
+          (* same id as the primary: it is the primary, hence Enabled *)
+          assert (e_primary e = true) by (rewrite (Hother e He); exact Eid).
+          assert (e = p).
+          { rewrite Hes in He. apply in_app_or in He. apply Forall_app in Hnp. destruct Hnp as [Hn1 Hn2].
+            rewrite Forall_forall in Hn1, Hn2. destruct He as [He|[He|He]]; [rewrite (Hn1 e He) in H; discriminate | auto | rewrite (Hn2 e He) in H; discriminate]. }
+          subst e. rewrite Hps in Hsp. cbn [status_to_proto] in Hsp. inversion Hsp. reflexivity.
+        - apply existsb_exists. exists (pk_of p). split; [apply in_map; exact Hpin|].
+          destruct (entry_to_proto_key_ok p (Hst p Hpin) (Hkeys p Hpin)) as (s & st & _ & Hsp & _ & _ & E).
+          unfold pk_of. rewrite E. cbn [pk_status]. rewrite Hps in Hsp. inversion Hsp. reflexivity.
+        - apply existsb_exists. exists (pk_of p). split; [apply in_map; exact Hpin|].
+          destruct (entry_to_proto_key_ok p (Hst p Hpin) (Hkeys p Hpin)) as (s & st & _ & Hsp & _ & _ & E).
+          unfold pk_of. rewrite E. cbn [pk_status pk_id]. rewrite Hps in Hsp. inversion Hsp.
+          rewrite (N.eqb_refl (e_id p)). reflexivity. }
+      rewrite Hval. rewrite map_map.
+      rewrite (all_some_map _ (fun e => e)); [rewrite map_id; reflexivity|].
+      intros e He.
+      destruct (entry_to_proto_key_ok e (Hst e He) (Hkeys e He)) as (s & st & Hs & _ & Hsf & _ & E).
+      unfold pk_of. rewrite E. unfold proto_key_to_entry. cbn [pk_data pk_prefix pk_id pk_status kd_url kd_value kd_mat].
+      destruct (Hkeys e He) as (s' & Hs' & Hpar & _ & Hid & _). rewrite Hs in Hs'. inversion Hs'; subst s'.
+      rewrite <- Hid.
+      assert (Hnk : new_key_serialization (ks_url s) (ks_value s) (ks_mat s) (ks_prefix s) (ks_id s) = Some s).
+      { unfold new_key_serialization. destruct (ks_prefix s =? prefix_raw) eqn:Ep.
+        - assert (Hz : ks_id s = 0) by exact Hid. rewrite Hz. cbn. destruct s as [u v m pr i]. cbn in Hz. subst i. reflexivity.
+        - cbn. destruct s; reflexivity. }
+      rewrite Hnk, Hpar, Hsf. rewrite <- (Hother e He). destruct e; reflexivity.
+    - unfold wf_pkeyset. cbn [pks_primary pks_keys]. apply andb_true_iff. split.
+      + apply N.ltb_lt. apply Hrange. exact Hpin.
+      + apply forallb_forall. intros k Hk. apply in_map_iff in Hk. destruct Hk as (e & <- & He).
+        destruct (entry_to_proto_key_ok e (Hst e He) (Hkeys e He)) as (s & st & Hs & _ & _ & Hks & E).
+        unfold pk_of. rewrite E. unfold wf_pkey. cbn [pk_data pk_status pk_id pk_prefix kd_url kd_mat].
+        destruct (Hkeys e He) as (s' & Hs' & _ & Hkp & _ & Hu & Hm). rewrite Hs in Hs'. inversion Hs'; subst s'.
+        rewrite Hu, Hm. cbn [andb].
+        assert (E1 : scalar_ok TEnum st = true).
+        { unfold known_status in Hks. unfold scalar_ok, two31. rewrite !orb_true_iff in Hks. rewrite !N.eqb_eq in Hks.
+          apply orb_true_iff. left. apply N.ltb_lt. lia. }
+        assert (E2 : scalar_ok TEnum (ks_prefix s) = true).
+        { unfold known_prefix in Hkp. unfold scalar_ok, two31. rewrite !orb_true_iff in Hkp. rewrite !N.eqb_eq in Hkp.
+          apply orb_true_iff. left. apply N.ltb_lt. lia. }
+        rewrite E1, E2. cbn [andb]. rewrite andb_true_r. apply N.ltb_lt. apply Hrange. exact He.
+    - cbn [pks_keys]. destruct es; [contradiction | discriminate].
+  Qed.
+
+  Lemma new_from_entries_wf es : wf_handle es -> new_from_entries K es = Some es.
+  Proof.
+    intros [_ _ (l1 & p & l2 & Hes & Hpp & _ & _) Hst _]. unfold new_from_entries.
+    assert (E1 : existsb e_primary es = true).
+    { apply existsb_exists. exists p. split; [rewrite Hes; apply in_or_app; right; left; reflexivity | exact Hpp]. }
+    assert (E2 : forallb (fun e : entry K => match e_status e with Unknown => false | _ => true end) es = true).
+    { apply forallb_forall. intros e He. specialize (Hst e He). destruct (e_status e); auto; contradiction. }
+    change (existsb (e_primary (K:=K)) es) with (existsb e_primary es).
+    rewrite E1, E2. reflexivity.
+  Qed.
+
+  (* cleartext, binary writer and reader *)
+  Theorem read_write_cleartext es b :
+    wf_handle es -> write_cleartext K ser_k es = Some b -> N.of_nat (length b) < two64 ->
+    read_cleartext K par_k b = Some es.
+  Proof.
+    intros Hwf Hw Hl. destruct (keyset_entries_roundtrip es Hwf) as (ks & E1 & E2 & E3 & E4).
+    unfold write_cleartext in Hw. rewrite E1 in Hw. cbn [option_map] in Hw. inversion Hw; subst b.
+    unfold read_cleartext. rewrite read_write_keyset by assumption.
+    destruct (pks_keys ks) eqn:Ek; [contradiction|].
+    unfold handle_from_proto. rewrite E2. apply new_from_entries_wf. exact Hwf.
+  Qed.
+
+  (* encrypted with any AEAD and associated data *)
+  Variable aead_enc : bytes -> bytes -> bytes.
+  Variable aead_dec : bytes -> bytes -> option bytes.
+  Hypothesis aead_correct : forall ad p, aead_dec ad (aead_enc ad p) = Some p.
+
+  Theorem read_write_encrypted es ad b :
+    wf_handle es -> write_encrypted K ser_k aead_enc es ad = Some b -> N.of_nat (length b) < two64 ->
+    (forall ks, entries_to_proto_keyset K ser_k es = Some ks -> N.of_nat (length (write_keyset ks)) < two64) ->
+    read_encrypted K par_k aead_dec b ad = Some es.
+  Proof.
+    intros Hwf Hw Hl Hl2. destruct (keyset_entries_roundtrip es Hwf) as (ks & E1 & E2 & E3 & E4).
+    unfold write_encrypted in Hw. rewrite E1 in Hw. inversion Hw; subst b. clear Hw.
+    unfold read_encrypted.
+    rewrite decode_encode; [| apply encrypted_keyset_schema_wf | reflexivity | exact Hl].
+    rewrite aead_correct. rewrite read_write_keyset; [| exact E3 | apply Hl2; exact E1].
+    unfold handle_from_proto. rewrite E2. apply new_from_entries_wf. exact Hwf.
+  Qed.
+
+  (* Public() *)
+  Variable pub_k : K -> option K.
+
+  Theorem public_handle_preserves es es' :
+    public_handle K pub_k es = Some es' ->
+    map e_id es' = map e_id es /\ map e_status es' = map e_status es /\ map e_primary es' = map e_primary es /\
+    Forall2 (fun e e' => pub_k (e_key e) = Some (e_key e')) es es'.
+  Proof.
+    unfold public_handle. destruct es as [|e0 es0]; [discriminate|].
+    set (es := e0 :: es0).
+    destruct (all_some (map _ es)) as [l|] eqn:E; [|discriminate].
+    unfold new_from_entries. destruct (_ && _); [|discriminate]. intros H. inversion H; subst es'. clear H.
+    revert l E. generalize es. clear. induction es as [|e es IH]; intros l E; cbn [map all_some] in E.
+    - inversion E. repeat split; constructor.
+    - destruct (pub_k (e_key e)) as [pk|] eqn:Ep; [|discriminate].
+      destruct (all_some (map _ es)) as [l'|] eqn:E'; [|discriminate]. inversion E; subst l.
+      destruct (IH l' eq_refl) as (A & B & C & D).
+      cbn [map e_id e_status e_primary e_key]. rewrite A, B, C. repeat split. constructor; [exact Ep | exact D].
+  Qed.
+
+  Theorem public_handle_total es :
+    wf_handle es -> (forall e, In e es -> pub_k (e_key e) <> None) ->
+    exists es', public_handle K pub_k es = Some es'.
+  Proof.
+    intros Hwf Hp. pose proof (new_from_entries_wf es Hwf) as Hn.
+    destruct Hwf as [_ _ (l1 & p & l2 & Hes & Hpp & _ & _) Hst _].
+    set (f := fun e : entry K => match pub_k (e_key e) with
+                                  | Some pk => mkEntry pk (e_primary e) (e_id e) (e_status e)
+                                  | None => e end).
+    exists (map f es). unfold public_handle.
+    destruct es as [|e0 es0] eqn:Ees; [destruct l1; discriminate|]. rewrite <- Ees in *.
+    rewrite (all_some_map _ f).
+    - unfold new_from_entries in *.
+      assert (E1 : existsb e_primary (map f es) = existsb e_primary es).
+      { rewrite existsb_map. apply existsb_ext. intros e. unfold f. destruct (pub_k (e_key e)); reflexivity. }
+      assert (E2 : forallb (fun e : entry K => match e_status e with Unknown => false | _ => true end) (map f es)
+                   = forallb (fun e : entry K => match e_status e with Unknown => false | _ => true end) es).
+      { rewrite forallb_map. apply forallb_ext. intros e. unfold f. destruct (pub_k (e_key e)); reflexivity. }
+      change (existsb (e_primary (K:=K)) (map f es)) with (existsb e_primary (map f es)).
+      rewrite E1, E2. destruct (existsb e_primary es && _); [reflexivity | discriminate].
+    - intros e He. unfold f. specialize (Hp e He). destruct (pub_k (e_key e)); [reflexivity | contradiction].
+  Qed.
+End KeysetProofs.
